@@ -13,6 +13,10 @@
 //!     every leaf kind at every position of every bracketed construct, real
 //!     parse tree vs printed tree vs the Lean look-ahead model, values on the
 //!     JIT; literal spellings in `return` / block / parenthesis positions.
+//!  H. literal spellings whose first character selects the lexer path
+//!     (`src/c09/firstchar.rs`): IPv6 addresses / prefixes beginning with every
+//!     hex digit in both cases, AS numbers, identifiers beginning with `AS` / hex
+//!     letters / `f`, numbers beginning with `0x` / `0` / every digit.
 //!  G. prefix operators × operand kinds × postfix forms (`src/c09/postfix.rs`):
 //!     real parse tree vs Lean reference vs Lean model on expressions that mix
 //!     `!` / `-`, every kind of atom, method calls / fields / `?` and binary
@@ -33,6 +37,8 @@ use std::net::{IpAddr, Ipv4Addr, Ipv6Addr};
 mod lookahead;
 #[path = "../c09/postfix.rs"]
 mod postfix;
+#[path = "../c09/firstchar.rs"]
+mod firstchar;
 
 // ------------------------------------------------------------------ operators
 
@@ -1224,6 +1230,9 @@ fn run(seed: u64, thorough: bool) -> Report {
     let mut rep = Report::default();
     let mut drv = Driver::spawn().expect("lean driver");
     let mut p = Prng::new(seed);
+
+    // H. first character × literal kind (seed-independent table)
+    firstchar::run(&mut rep);
 
     // F. bracketed constructs × mode-switching tokens (boundary tables first)
     lookahead::run(&mut rep, &mut drv, &mut p, thorough);
